@@ -76,6 +76,9 @@ def main():
                 for o in r["obligations"]:
                     cnt[report.strip_line(o["name"])] += 1
             base.setdefault(a.pid, {})["deductive"] = dict(sorted(cnt.items()))
+            # what the executor only over-approximates in each unit on the pinned tree (uninterpreted str methods ...): see report.add_deductive
+            base[a.pid]["abstractions"] = {r["unit"]: sorted(x for x in r.get("info", {}).get("assumptions", []) if x.startswith("uninterpreted: "))
+                                           for r in run.unit_results + run.extra_results}
             os.makedirs(os.path.dirname(path), exist_ok=True)
             json.dump(base, open(path, "w"), indent=1, sort_keys=True)
             print(f"baseline updated: {len(cnt)} obligation names for {a.pid}")
